@@ -66,6 +66,10 @@ class VArr(_Generic):
     def __sym_len__(self):
         return self.shape_[0]
 
+    def __sym_isinstance__(self, ts):
+        import numpy as np
+        return any(t is np.ndarray for t in ts)
+
     def in_bounds(self):
         return z3.And(*[z3.And(V(a) >= 0, V(a) < _size_t(s)) for a, s in enumerate(self.shape_)])
 
@@ -371,3 +375,69 @@ class MGrid:
             import numpy as np
             return np.mgrid[key]
         return [VArr(shape, SV(V(a)), "int64") for a in range(len(shape))]
+
+
+class Spectrum(_Generic):
+    """fftn(x) of a voxel array, possibly multiplied by real gain arrays: DFT(x) * gain (element-wise in Fourier space)"""
+
+    def __init__(self, source, gains=()):
+        self.source, self.gains = source, list(gains)
+
+    def __mul__(self, o):
+        if isinstance(o, VArr):
+            return Spectrum(self.source, self.gains + [o])
+        raise Unsupported("spectrum multiplied by a non-array")
+
+    __rmul__ = __mul__
+
+    @property
+    def shape(self):
+        return self.source.shape
+
+
+class FilteredMap(_Generic):
+    """ifftn(DFT(x) * G) (and its real part): the map x filtered with the Fourier-space gain G"""
+
+    def __init__(self, source, gains, real=False):
+        self.source, self.gains, self.real = source, gains, real
+
+    @property
+    def shape(self):
+        return self.source.shape
+
+
+class FFT:
+    """assumed contract of numpy.fft: fftn/ifftn are mutually inverse linear maps that diagonalise circular shifts;
+    ifftshift(a)[i] = a[(i + n//2) mod n] and fftshift(a)[i] = a[(i - n//2) mod n] per axis"""
+
+    @staticmethod
+    def fftn(x, *a, **k):
+        if isinstance(x, VArr):
+            return Spectrum(x)
+        raise Unsupported("fftn of a non-voxel array")
+
+    @staticmethod
+    def ifftn(s, *a, **k):
+        if isinstance(s, Spectrum):
+            return FilteredMap(s.source, s.gains)
+        raise Unsupported("ifftn of something that is not a (filtered) spectrum")
+
+    @staticmethod
+    def _shift(x, sign):
+        if not isinstance(x, VArr):
+            raise Unsupported("fft shift of a non-voxel array")
+        sub = {}
+        for a, n in enumerate(x.shape_):
+            nt = _size_t(n)
+            h = nt / 2
+            # (V + sign*h) mod n written without mod, valid for 0 <= V < n (where the element is defined)
+            sub[a] = z3.If(V(a) + h >= nt, V(a) + h - nt, V(a) + h) if sign > 0 else z3.If(V(a) - h < 0, V(a) - h + nt, V(a) - h)
+        return VArr(x.shape_, subst_index(x.elem, sub), x.dtype_)
+
+    @staticmethod
+    def ifftshift(x, *a, **k):
+        return FFT._shift(x, +1)
+
+    @staticmethod
+    def fftshift(x, *a, **k):
+        return FFT._shift(x, -1)
